@@ -800,6 +800,18 @@ func (e *Eng) havocTarget(fr *Frame, st *State, t types.Type, v Val, instr ssa.I
 				nv := e.freshVal(x.Elem, "ext")
 				e.checkFrameStore(fr, st, x, instr)
 				e.storePtr(fr, st, x, x.Elem, nv)
+				// ... and an uncontracted library call on an object invalidates what the typestate ghosts
+				// say about that object (it may have reconfigured, closed or consumed it)
+				for _, n := range e.sortedHeapNames() {
+					if !strings.HasPrefix(n, "G|") || strings.HasPrefix(n, "G|snap_") || strings.HasPrefix(n, "G|holds_") || strings.HasPrefix(n, "G|chan") {
+						continue
+					}
+					if !strings.HasPrefix(e.heapNames[n], "(Array "+sRef+" ") {
+						continue
+					}
+					st.heap[n] = app("store", st.heap[n], x.Ref, e.fresh("extghost", elemSortOf(e.heapNames[n])))
+					e.modified[n] = true
+				}
 				return
 			}
 		}
